@@ -134,6 +134,7 @@ def run(tier, rep):
     outs = vlib.pool_map(run_case, cases, chunksize=4)
     nchk = 0
     worst = {}
+    worst2 = {}
     for (ri, method, mode, arg), o in zip(cases, outs):
         rec = RECS[ri]
         n = rec['n']
@@ -147,8 +148,20 @@ def run(tier, rep):
         quad = rec['kind'] in ('affine', 'quadratic')
         want = np.array([multi.vec(r) for r in rec['hess']])
         tol = tol_for(method, quad) * sc
+        # smooth functions: envelopes per (method, class of call) relative to the size of the function's own second-order data
+        # (scale without the (1 + |x|) factor); calibrated as 100 x the worst ratio observed on the repaired tree (envelopes.json: hessian2)
+        sc2 = sc / (1.0 + max(abs(v) for v in x0))
 
-        def check_matrix(H, label, w=want, factor=1.0):
+        nb = ':n<=2' if n <= 2 else ''         # the base point has |x| <= 3 for n <= 2 and coordinates 40, 7 beyond: separate envelopes
+
+        def tol2(cls_):
+            return ENV['hessian2'][method].get(cls_ + nb, 1e300) * sc2
+
+        def note(cls_, err_):
+            if not quad:
+                worst2[(method, cls_ + nb)] = max(worst2.get((method, cls_ + nb), 0.0), float(err_ / sc2))
+
+        def check_matrix(H, label, w=want, factor=1.0, cls_='plain'):
             H = np.asarray(H, dtype=float)
             if H.shape != w.shape:
                 rep.violation('shape:' + mode, dict(case=name, got=list(H.shape)), '%s: %s has shape %s, expected %s' % (name, label, H.shape, w.shape))
@@ -158,13 +171,14 @@ def run(tier, rep):
                 return
             err = np.abs(H - w).max()
             worst[(method, quad)] = max(worst.get((method, quad), 0.0), float(err / sc))
-            if not err <= tol * factor:
+            note(cls_, err / factor)
+            if not err <= (tol if quad else tol2(cls_)) * factor:
                 rep.violation('entry:%s:%s' % (mode, method), dict(case=name, got=H.tolist(), want=w.tolist(), tol=tol * factor),
                               '%s: %s %s, exact second derivatives %s (tolerance %.2g)' % (name, label, H.tolist(), w.tolist(), tol * factor))
         if mode in ('hess', 'hess-plain', 'hess-len1'):
             check_matrix(o[1], 'Hessian')
         elif mode == 'hess-step':
-            check_matrix(o[1], 'Hessian with a user generator', factor=100.0)
+            check_matrix(o[1], 'Hessian with a user generator', factor=100.0 if quad else 1.0, cls_='userstep')
         elif mode == 'hess-complexf':
             check_matrix(o[1][0], 'real part of the Hessian of a complex-valued f')
             check_matrix(o[1][1], 'imaginary part of the Hessian of a complex-valued f', w=want * 0.5)
@@ -173,7 +187,8 @@ def run(tier, rep):
             if d.shape != (n,):
                 rep.violation('shape:hessdiag', dict(case=name, got=list(d.shape)), '%s: Hessdiag shape %s' % (name, d.shape))
                 continue
-            dt = tol_for(method, quad) * sc * ENV['hessian']['hessdiag_factor'] * (100.0 if arg == 6 and not quad else 1.0)
+            dt = tol_for(method, quad) * sc * ENV['hessian']['hessdiag_factor'] if quad else tol2('hessdiag6' if arg == 6 else 'hessdiag')
+            note('hessdiag6' if arg == 6 else 'hessdiag', np.abs(d - np.diag(want)).max())
             if not (np.abs(d - np.diag(want)) <= dt).all():
                 rep.violation('entry:hessdiag:%s' % method, dict(case=name, got=d.tolist(), want=np.diag(want).tolist(), tol=dt), '%s: Hessdiag %s, exact diagonal %s' % (name, d.tolist(), np.diag(want).tolist()))
             elif not (np.abs(d - hd) <= 10 * (est + hest) + 2 * dt).all():
@@ -183,7 +198,8 @@ def run(tier, rep):
             w2 = want * 1.0 if cls == 'Hessian' else np.diag(want)
             for got, s, lab in ((o[1][0], 4.0, 'second call (extra args s=1, keyword t=3: factor 4)'), (o[1][1], -0.5, 'third call (s=-0.5)')):
                 got = np.asarray(got)
-                if not np.abs(got - s * w2).max() <= 10 * tol * ENV['hessian']['hessdiag_factor'] * max(1.0, abs(s)):
+                note('history', np.abs(got - s * w2).max() / max(1.0, abs(s)))
+                if not np.abs(got - s * w2).max() <= (10 * tol * ENV['hessian']['hessdiag_factor'] if quad else tol2('history')) * max(1.0, abs(s)):
                     rep.violation('history:%s:%s' % (cls, method), dict(case=name, got=got.tolist(), want=(s * w2).tolist()),
                                   '%s: %s on a reused %s object returns %s, exact %s' % (name, lab, cls, got.tolist(), (s * w2).tolist()))
                     break
@@ -196,12 +212,14 @@ def run(tier, rep):
             continue
         nchk += 1
         H, d, want_i = np.array(o[1]), np.array(o[2]), np.array(o[3])
-        tol_i = tol_for(method, False) * max(1.0, np.abs(want_i).max()) * 10
+        tol_i = ENV['hessian2'][method]['plain'] * max(1.0, np.abs(want_i).max())          # a cubic at small integer points
         if H.shape != want_i.shape or not np.abs(H - want_i).max() <= tol_i:
             rep.violation('int-point:hessian:%s' % method, dict(case=name, got=H.tolist(), want=want_i.tolist()), '%s: Hessian %s, exact %s' % (name, np.round(H, 6).tolist(), want_i.tolist()))
         elif not np.abs(np.ravel(d) - np.diag(want_i)).max() <= tol_i * ENV['hessian']['hessdiag_factor']:
             rep.violation('int-point:hessdiag:%s' % method, dict(case=name, got=np.ravel(d).tolist(), want=np.diag(want_i).tolist()), '%s: Hessdiag %s, exact diagonal %s' % (name, np.ravel(d).tolist(), np.diag(want_i).tolist()))
     if os.environ.get('VERIF_SURVEY'):
+        for k_ in sorted(worst2):
+            print('SURVEY2', k_[0], k_[1], '%.3g' % worst2[k_])
         for k_ in sorted(worst):
             print('SURVEY', k_, '%.3g' % worst[k_])
     states, trans, per = vlib.merge_tlc([res])
